@@ -95,7 +95,8 @@ def _pmap_forked(ctx, chunks, results, jobs, fresh, progress, n):
                     pr.join()
                     rd.close()
                     progressed = True
-                elif not pr.is_alive():
+                elif not pr.is_alive() and not rd.poll(0):
+                    # (poll again: the child may have reported and exited between the two tests above)
                     pr.join()
                     rd.close()
                     raise HarnessError("a forked worker died without reporting (exit code %s)" % pr.exitcode)
